@@ -6,8 +6,11 @@
 #     documents; print -> parse round trip through the library and through Python; pure-ASCII with the code-point flag.
 #     Numbers: STRUCTURE (the parse consumes exactly the number: token sequence of the reference parser, no tolerance)
 #     before VALUE (1e-9 relative, iwstrtod is inexact).
+# PRINT CHANNELS: every exported way of turning a document into text (PRINT_API below, classified against the headers on every
+#     run) is a channel of harness/h_jtext.c; `chan`/`jchan` queries print one tree through ALL of them: same status, same bytes
+#     (count printer: their number), equal to the model's sinks folded over the model's chunks (T2), valid JSON for the tree.
 # env: VERIF_DEBUG=1 prints T2 mismatches; VERIF_JTEXT_OPEN=range-exp[,range-mant,refused]|all judges the recorded limits of iwstrtod too.
-import os, sys, json, struct, math, re
+import os, sys, json, struct, math, re, glob
 from decimal import Decimal
 import vlib
 from common import diff_run
@@ -618,6 +621,129 @@ def scan_sweep():
 
 
 # ------------------------------------------------------------------------------------------------ the check
+# ------------------------------------------------------------------------------------------------ print channels
+ALLPFS = list(range(16))                  # every combination of the four flag bits (INDENT2/INDENT4 carry the PRETTY bit as well)
+NODE_CHANNELS = ["n.xstr", "n.fmem", "n.file", "n.count", "n.rec", "n.alloc"]
+JBL_CHANNELS = ["b.xstr", "b.fmem", "b.file", "b.count", "b.rec", "b.alloc"]
+XML_CHANNELS = ["x.xstr", "x.fmem", "x.file", "x.count", "x.rec"]
+REG_CHANNELS = ["r.sync"]
+
+# Every exported function of src/**/*.h that the scan below takes for a printing entry point, and every library function that
+# calls one (P: producer with its channels in harness/h_jtext.c, S: sink = printer callback, A: agreement of the sinks only,
+# U: reaches a classified producer, X: outside - does not turn a document into text).  A new or vanished name fails the check.
+PRINT_API = {
+    "jbn_as_json": "P:n.xstr n.fmem n.file n.count n.rec",
+    "jbn_as_json_alloc": "P:n.alloc",
+    "jbl_as_json": "P:b.xstr b.fmem b.file b.count b.rec",
+    "jbl_as_json_alloc": "P:b.alloc",
+    "jbl_xstr_json_printer": "S:xstr alloc (Coq: xstr_put)",
+    "jbl_fstream_json_printer": "S:fmem (open_memstream) file (tmpfile) r.sync (Coq: fstream_put)",
+    "jbl_count_json_printer": "S:count (Coq: count_put)",
+    "jbn_as_xml": "A:x.xstr x.fmem x.file x.count x.rec - XML markup is not JSON text: no model, the sinks must agree (keys without NUL)",
+    "iwjsreg_sync": "P:r.sync - jbn_as_json + jbl_fstream_json_printer + JBL_PRINT_PRETTY_INDENT2 into the registry file",
+    "iwjsreg_close": "U:iwjsreg_sync", "iwjsreg_set_str": "U:iwjsreg_sync (IWJSREG_AUTOSYNC)", "iwjsreg_set_i64": "U:iwjsreg_sync (IWJSREG_AUTOSYNC)",
+    "iwjsreg_inc_i64": "U:iwjsreg_sync (IWJSREG_AUTOSYNC)", "iwjsreg_set_bool": "U:iwjsreg_sync (IWJSREG_AUTOSYNC)",
+    "iwjsreg_merge": "U:iwjsreg_sync (IWJSREG_AUTOSYNC)", "iwjsreg_replace": "U:iwjsreg_sync (IWJSREG_AUTOSYNC); used by the r.sync channel",
+    "jbl_merge_patch_jbl": "U:jbl_as_json + jbl_xstr_json_printer (b.xstr) on the patch, re-parsed at once (C15)",
+    "jbl_as_buf": "X:the binary form, not text (C14)",
+    "jbl_ptr_serialize": "X:writes a JSON pointer, not a document (C14)",
+}
+PRINT_FLAGS = ["JBL_PRINT_CODEPOINTS", "JBL_PRINT_PRETTY", "JBL_PRINT_PRETTY_INDENT2", "JBL_PRINT_PRETTY_INDENT4"]
+PRINTER_TYPE = "typedef iwrc (*jbl_json_printer)(const char *data, int size, char ch, int count, void *op);"
+API_NAME = re.compile(r"(_as_|_printer$|print(?!f)|serialize|_to_str|dump|_write|_sync$|_save)")
+API_PARAM = re.compile(r"jbl_json_printer|jbl_print_flags_t|\bFILE\b|struct iwxstr|IWXSTR|jbn_as_xml_spec")
+
+
+def _nocomment(t):
+    t = re.sub(r"/\*.*?\*/", "", t, flags=re.S)
+    return re.sub(r"//[^\n]*", "", t)
+
+
+def print_api_scan(repo):
+    """(candidates, flags, printer typedef found) of the current tree: exported declarations whose name or parameters look like
+    printing, plus the library functions whose body calls a classified producer or sink"""
+    cand, flags, typedef_ok = {}, set(), False
+    for hp in sorted(glob.glob(os.path.join(repo, "src", "**", "*.h"), recursive=True)):
+        h = _nocomment(open(hp, errors="replace").read())
+        if "jbl_json_printer" not in h and "struct jbl" not in h and "JBL" not in h:
+            continue
+        for m in re.finditer(r"IW_EXPORT\s+(?:[\w\*]+\s+)*?\**\s*(\w+)\s*\(([^;]*?)\)\s*(?:__attribute__\s*\(\(.*?\)\)\s*)?;", h, flags=re.S):
+            if API_NAME.search(m.group(1)) or API_PARAM.search(m.group(2)):
+                cand[m.group(1)] = os.path.relpath(hp, repo)
+        flags |= set(re.findall(r"#\s*define\s+(JBL_PRINT_\w+)", h))
+        if PRINTER_TYPE in " ".join(h.split()):
+            typedef_ok = True
+    names = [n for n, c in PRINT_API.items() if c[0] in "PSA"]
+    pat = re.compile(r"\b(%s)\b" % "|".join(names))
+    for cp in sorted(glob.glob(os.path.join(repo, "src", "**", "*.c"), recursive=True)):
+        rel = os.path.relpath(cp, repo)
+        if "/tests/" in rel or "/tools/" in rel:
+            continue
+        src = _nocomment(open(cp, errors="replace").read())
+        for m in re.finditer(r"^([A-Za-z_][^\n;{}]*?\b(\w+)\s*\([^;{}]*\)\s*)\{(.*?)^\}", src, flags=re.S | re.M):
+            if m.group(1).startswith("static"):
+                continue
+            if set(pat.findall(m.group(3))) - {m.group(2)}:
+                cand.setdefault(m.group(2), rel)
+    return cand, flags, typedef_ok
+
+
+BYTE_CLASSES = [
+    ("nul", b"\x00"), ("c0-short", b"\b\t\n\f\r"), ("c0-vt", b"\x0b"), ("c0-u", b"\x01\x1f"), ("del", b"\x7f"),
+    ("quote", b'"\\/'), ("ascii", b"aZ~ "),
+    ("u2", "\u0080\u00e9\u07ff".encode()), ("u3", "\u0800\u20ac\ud7ff\ue000\uffff".encode("utf-8", "surrogatepass")),
+    ("u4", "\U00010000\U0001d306\U0010ffff".encode()),
+    ("inv-cont", b"\x80"), ("inv-cont2", b"a\xbf"), ("inv-overlong2", b"\xc0\x80"), ("inv-overlong3", b"\xe0\x80\x80"),
+    ("inv-trunc2", b"\xc3"), ("inv-trunc3", b"\xe2\x82"), ("inv-trunc4", b"\xf0\x9f\x98"),
+    ("inv-surr-hi", b"\xed\xa0\x80"), ("inv-surr-lo", b"\xed\xb0\x80"), ("inv-surr-pair", b"\xed\xa0\xb4\xed\xbc\x86"),
+    ("inv-beyond", b"\xf4\x90\x80\x80"), ("inv-f5", b"\xf5"), ("inv-fe", b"\xfe"), ("inv-ff", b"\xff"),
+    ("mix", b"a\x00\xc3\xa9\"\xff\n"), ("mix-valid", "\u00e9\n\U0001f600\x7f\u20ac".encode()),
+]
+
+
+def tree_strings(t):
+    return [bytes.fromhex(x[1:]) for x in t if x[0] in "sk"]
+
+
+def jbl_eligible(t):
+    """jbl_from_node keeps the tree as it is: container root, member names unique (ASCII case ignored), no NUL bytes"""
+    return t[0] in "[{" and not has_dup_keys(t) and not any(0 in b for b in tree_strings(t))
+
+
+def reg_changes(t):
+    """would a JSON merge of the tree into an empty registry change it?  (null members are deletions, empty names address the parent)"""
+    st = []
+    for i, x in enumerate(t):
+        if x in ("{", "["):
+            st.append(x)
+        elif x in ("}", "]"):
+            st.pop()
+        elif x[0] == "k" and (len(x) == 1 or "2f" in re.findall("..", x[1:]) or "7e" in re.findall("..", x[1:])):
+            return True
+        elif x == "n" and st and st[-1] == "{":
+            return True
+    return False
+
+
+def parse_groups(line):
+    """`chan` answer -> ({channel: (status, payload)}, diagnostics) ; payload: bytes, int (count) or error name"""
+    main, _, diag = line.partition(" ## ")
+    res = {}
+    for g in main.split(" | "):
+        f = g.split()
+        if len(f) != 3 or f[0] not in ("ok", "err"):
+            return None, diag
+        if f[0] == "err":
+            pay = f[1]
+        elif f[1].startswith("#"):
+            pay = int(f[1][1:])
+        else:
+            pay = bytes.fromhex(f[1]) if f[1] != "-" else b""
+        for name in f[2].split(","):
+            res[name] = (f[0], pay)
+    return res, diag
+
+
 def nums_tables(impl, docs):
     """oracle inputs: iwstrtod at every possible number start, from the implementation"""
     need = [i for i, d in enumerate(docs) if NUM_START.search(d)]
@@ -632,6 +758,24 @@ def nums_tables(impl, docs):
 def check(run):
     tier, rng = run.tier, run.rng
     proofs_ok = run.proofs()
+    # T1: every exported printing entry point of the current tree is classified (and has its channels in the harness)
+    try:
+        cand, flags, typedef_ok = print_api_scan(vlib.REPO)
+        new = sorted(f for f in cand if f not in PRINT_API)
+        gone = sorted(f for f in PRINT_API if f not in cand)
+        if new or gone:
+            run.broken.append("T1 print API: the tree exports / calls printing entry points %s that PRINT_API (checks/C13.py) does not classify; "
+                              "classified but no longer found: %s - every way of turning a document into text must be a channel of "
+                              "harness/h_jtext.c" % (["%s (%s)" % (f, cand[f]) for f in new] or "-", gone or "-"))
+        if sorted(flags) != PRINT_FLAGS:
+            run.broken.append("T1 print API: print flags of iwjson.h are %s, classified %s" % (sorted(flags), PRINT_FLAGS))
+        if not typedef_ok:
+            run.broken.append("T1 print API: the type jbl_json_printer is no longer `%s` (chunk model of coq/JSON/TextChan.v)" % PRINTER_TYPE)
+        run.cov["print_api"] = {"candidates": len(cand), "producers": sorted(f for f, c in PRINT_API.items() if c[0] == "P"),
+                                "sinks": sorted(f for f, c in PRINT_API.items() if c[0] == "S"),
+                                "channels": NODE_CHANNELS + JBL_CHANNELS + XML_CHANNELS + REG_CHANNELS, "flag_sets": len(ALLPFS)}
+    except OSError as e:
+        run.broken.append("T1 print API: cannot scan the headers (%s)" % e)
     impl = vlib.build_harness("h_jtext")
     model = vlib.build_model("jtext")
     mult = 1 if proofs_ok else 10
@@ -640,7 +784,7 @@ def check(run):
     # ---------------- documents: (bytes, in_scope, kind)
     docs = []
     cdir = os.path.join(vlib.VERIF, "corpus", "C13")
-    ctrees = []
+    ctrees, cchans = [], []
     for cf in sorted(os.listdir(cdir)) if os.path.isdir(cdir) else []:
         for l in open(os.path.join(cdir, cf)):
             f = l.split()
@@ -650,6 +794,8 @@ def check(run):
                 docs.append((bytes.fromhex(f[1]), True, "corpus"))
             elif f[0] == "tree":
                 ctrees.append((int(f[1]), f[2:]))
+            elif f[0] == "chan":                   # a tree printed through every channel
+                cchans.append((int(f[1]), f[2:]))
     # every code point edge x every spelling, every control character
     for cp in EDGE_CPS + list(range(0, 0x20)):
         for style in (0, 1, 2):
@@ -729,6 +875,41 @@ def check(run):
             toks = [(x + ":" + ftxt.get(x[1:17], "")) if x[0] == "d" else x for x in t]
             lines.append("jprint %d %s" % (pf, " ".join(toks))); meta.append(("jprint", pf, t, u8ok))
 
+    # ---------------- print channels: every tree through every exported way of printing it, every flag set
+    def add_chan(pf, t, kind, chunks=False):
+        if any(x[0] == "d" for x in t):
+            toks = [(x + ":" + ftxt.get(x[1:17], "")) if x[0] == "d" else x for x in t]
+        else:
+            toks = t
+        u8ok = all(is_utf8(b) for b in tree_strings(t))
+        dump = " ".join(toks)
+        lines.append("chan %d %s" % (pf, dump)); meta.append(("chan", pf, t, u8ok, kind))
+        if chunks:
+            lines.append("chunks %d %s" % (pf, dump)); meta.append(("chunks", pf, t, u8ok, kind))
+        if jbl_eligible(t):
+            lines.append("jchan %d %s" % (pf, dump)); meta.append(("jchan", pf, t, u8ok, kind))
+            if chunks:
+                lines.append("jchunks %d %s" % (pf, dump)); meta.append(("jchunks", pf, t, u8ok, kind))
+
+    for pf, t in cchans:
+        add_chan(pf, t, "corpus", True)
+    for name, b in BYTE_CLASSES:                 # every byte class as a value, as a member name and inside longer strings x every flag set
+        h = b.hex()
+        for pf in ALLPFS:
+            add_chan(pf, ["[", "s" + h, "{", "k" + h, "s61" + h + "62", "}", "]"], "class/" + name, True)
+    for b in range(256):                         # every byte alone, as value and member name
+        for pf in (0, 5) if tier == "quick" else ALLPFS:
+            add_chan(pf, ["{", "k%02x" % b, "s%02x" % b, "}"], "byte", pf == 0)
+    for cp in EDGE_CPS:
+        u = utf8(cp).hex()
+        add_chan(rng.choice(ALLPFS), ["{", "k" + u, "[", "s" + u, "s78" + u + u, "]", "}"], "edge-cp", True)
+    for depth, pfs in ((30, ALLPFS), (100, (1, 5, 9, 11))):      # indentation: one call with a count per line
+        for pf in pfs:
+            add_chan(pf, ["[", "{", "k61"] * depth + ["s62"] + ["}", "]"] * depth, "deep")
+    for j, (pf, t, u8ok) in enumerate(trees):
+        if j % 2 == 0 or j < len(ctrees):
+            add_chan(pf if j % 4 == 0 else rng.choice(ALLPFS), t, "tree", j % 8 == 0)
+
     # ---------------- unescape, utf8, strtoll
     for i in range(N):
         r = rng.fork()
@@ -779,28 +960,49 @@ def check(run):
     out_i, out_m, mism, err = diff_run(impl, model, lines)
     if err:
         run.broken.append("T2 harness: " + err)
+    # a failed channel reports what it left in the sink after " ## ": diagnostics, not part of the answer
+    mism = [i for i in mism if not (i < len(out_i) and i < len(out_m) and out_i[i].partition(" ## ")[0] == out_m[i])]
 
-    # ---------------- second round: the printed texts are parsed again (T2 + oracle)
-    lines2, meta2 = [], []
+    # ---------------- second round: the printed texts are parsed again (T2 + oracle); parsed documents go through the channels
+    lines2, meta2, seen2 = [], [], {}
     for i, m in enumerate(meta):
-        if m[0] == "print" and i < len(out_i) and out_i[i].startswith("ok "):
+        if m[0] in ("print", "chan", "jchan") and i < len(out_i) and out_i[i].startswith("ok "):
             txt = bytes.fromhex(out_i[i].split()[1]) if out_i[i].split()[1] != "-" else b""
             if 0 not in txt:
-                lines2.append(txt); meta2.append(i)
+                if txt not in seen2:
+                    seen2[txt] = len(lines2)
+                    lines2.append(txt)
+                meta2.append((i, seen2[txt]))
     tabs2 = nums_tables(impl, lines2)
     q2 = ["parse %s %s" % (vlib.hexs(t), tb) for t, tb in zip(lines2, tabs2)]
+    nparse2 = len(q2)
+    mchan2 = []
+    for i, m in enumerate(meta):                  # escapes, surrogate pairs, raw UTF-8 of the documents: what the parser built, on every channel
+        if m[0] != "parse" or i >= len(out_i) or not out_i[i].startswith("ok ") or len(m[1]) > 400:
+            continue
+        kind = m[3]
+        if not (kind in ("edge-cp", "corpus") or (kind == "grammar" and i % 4 == 0)):
+            continue
+        t = out_i[i].split()[1:]
+        if not t or t[0] == "none" or any(x[0] == "d" for x in t):
+            continue
+        u8ok = all(is_utf8(b) for b in tree_strings(t))
+        for cmd in ("chan", "jchan") if jbl_eligible(t) else ("chan",):
+            pf = rng.choice(ALLPFS)
+            q2.append("%s %d %s" % (cmd, pf, " ".join(t))); mchan2.append((cmd, pf, t, u8ok, "doc/" + kind, m[1]))
     out_i2, out_m2, mism2, err2 = diff_run(impl, model, q2)
     if err2:
         run.broken.append("T2 harness (round 2): " + err2)
+    mism2 = [i for i in mism2 if not (i < len(out_i2) and i < len(out_m2) and out_i2[i].partition(" ## ")[0] == out_m2[i])]
 
     nl = len(lines) + len(q2)
     for i, l in enumerate(lines):
         run.case(l, nontrivial=True, sample=({"query": l[:300], "impl": (out_i[i] if i < len(out_i) else None) and out_i[i][:300]}
                                              if i % max(1, len(lines) // 5) == 0 else None))
-        run.dist(meta[i][0] + ("/" + meta[i][3] if meta[i][0] == "parse" else ""))
-    for l in q2:
+        run.dist(meta[i][0] + ("/" + meta[i][3] if meta[i][0] == "parse" else "/" + meta[i][4].split("/")[0] if len(meta[i]) > 4 else ""))
+    for j, l in enumerate(q2):
         run.case(l, nontrivial=True)
-        run.dist("parse/printed")
+        run.dist("parse/printed" if j < nparse2 else mchan2[j - nparse2][0] + "/doc")
     run.cov["traces_validated_against_impl"] = nl - len(mism) - len(mism2)
     allm = [(lines, out_i, out_m, i) for i in mism] + [(q2, out_i2, out_m2, i) for i in mism2]
     if allm and os.environ.get("VERIF_DEBUG"):
@@ -814,12 +1016,14 @@ def check(run):
     # ---------------- ORACLE 1: valid documents against the reference parser
     nviol = {}
 
-    def viol(q, impl_out, why, kind, doc=None):
+    def viol(q, impl_out, why, kind, doc=None, extra=None):
         nviol[kind] = nviol.get(kind, 0) + 1
         if nviol[kind] <= 3:                       # a few replays per kind of failure are enough
             r = {"query": q, "impl": impl_out, "kind": kind}
             if doc is not None:
                 r["document"] = doc.decode("latin-1")[:2000]
+            if extra:
+                r.update(extra)
             run.violation(r, why)
 
     scope_docs = []
@@ -918,7 +1122,7 @@ def check(run):
                     viol(l, o, "library re-parse of its own output differs (%s) for %r" % (why, d[:100]), "rt-self")
 
     # ---------------- ORACLE 3: arbitrary trees: printed text is valid JSON for the same value; the library reads it back
-    back = {mi: k for k, mi in enumerate(meta2)}
+    back = {mi: k for mi, k in meta2}
     for i, m in enumerate(meta):
         if m[0] not in ("print", "jprint") or i >= len(out_i):
             continue
@@ -945,6 +1149,127 @@ def check(run):
                 viol(lines[i], out_i[i], "the library rejects its own output %r" % txt[:120], "print-self")
             elif not same_masked(o2[1:], t):
                 viol(lines[i], out_i[i], "library re-parse of %r differs from the printed tree" % txt[:120], "print-self")
+
+    # ---------------- ORACLE 6: print channels - every exported way of printing a tree gives the same answer, and the right one
+    FLAGNAMES = {1: "PRETTY", 2: "CODEPOINTS", 4: "INDENT2", 8: "INDENT4"}
+
+    def flag_text(pf):
+        return "|".join(n for b, n in FLAGNAMES.items() if pf & b) or "0"
+
+    def judge_channels(l, o, m, expected, what):
+        """all channels of one query agree; returns the common text or None.  m = (cmd, pf, tree, u8ok, kind[, document])"""
+        pf, t, u8ok = m[1], m[2], m[3]
+        res, diag = parse_groups(o)
+        prod = "/" + {"n": "jbn", "b": "jbl", "x": "xml", "r": "reg"}[expected[0][0]]
+        if res is None or sorted(res) != sorted(expected):
+            if o.startswith("err1 "):
+                if u8ok:
+                    viol(l, o, "%s: the tree could not be converted (%s)" % (what, o[:40]), "chan-fail" + prod)
+            else:
+                run.broken.append("T2 harness: answer `%s` to `%s` does not list the channels %s" % (o[:200], l[:100], expected))
+            return None
+        good = [n for n in expected if res[n][0] == "ok" and isinstance(res[n][1], bytes)]
+        extra = {"flags": pf, "flag_names": flag_text(pf), "tree": " ".join(t)[:2000], "left_in_sink": diag[:600]}
+        if len(m) > 5:
+            extra["source_document"] = m[5].decode("latin-1")[:2000]
+        doc = res[good[0]][1] if good else None
+        failed = sorted(n for n in expected if res[n][0] != "ok")
+        if failed:
+            alike = len(failed) == len(expected) and {res[n][1] for n in failed} == {"E_UTF8"}
+            if not (alike and (pf & 2) and not u8ok):
+                extra["channel"] = failed
+                viol(l, o, "%s with flags %s: channel(s) %s fail with %s%s on the tree `%s`" % (
+                    what, flag_text(pf), ",".join(failed), "/".join(sorted({res[n][1] for n in failed})),
+                    " while %s print %r" % (",".join(good), doc[:80]) if good else "", " ".join(t)[:160]), "chan-fail" + prod, doc, extra)
+            return None
+        texts = {}
+        for n in good:
+            texts.setdefault(res[n][1], []).append(n)
+        if len(texts) > 1:
+            major = max(texts.values(), key=len)
+            extra["channel"] = sorted(n for ns in texts.values() if ns is not major for n in ns)
+            viol(l, o, "%s with flags %s: the channels write different text for the tree `%s`: %s" % (
+                what, flag_text(pf), " ".join(t)[:160], "; ".join("%s -> %r" % (",".join(ns), tx[:80]) for tx, ns in texts.items())),
+                "chan-differ" + prod, doc, extra)
+            return None
+        for n in expected:
+            if n.endswith(".count") and res[n][1] != len(doc):
+                extra["channel"] = [n]
+                viol(l, o, "%s with flags %s: the count printer reports %r bytes, the text has %d: %r" % (
+                    what, flag_text(pf), res[n][1], len(doc), doc[:80]), "chan-count" + prod, doc, extra)
+                return None
+        return doc
+
+    def judge_chan_text(l, o, m, txt, reparsed):
+        pf, t, u8ok = m[1], m[2], m[3]
+        extra = {"flags": pf, "flag_names": flag_text(pf), "tree": " ".join(t)[:2000], "channel": "all"}
+        if (pf & 2) and any(b >= 128 for b in txt):
+            viol(l, o, "JBL_PRINT_CODEPOINTS output is not pure ASCII", "ascii", txt, extra)
+        if u8ok:
+            try:
+                ref = py_parse(txt)
+                if not any(x[0] == "d" for x in t) and ref != t:
+                    viol(l, o, "printed text %r does not denote the printed tree" % txt[:120], "chan-value", txt, extra)
+            except (ValueError, UnicodeDecodeError) as e:
+                viol(l, o, "printed text is not valid JSON: %r (%s)" % (txt[:120], str(e)[:80]), "chan-invalid", txt, extra)
+        if reparsed is not None:
+            o2 = reparsed.split()
+            if not o2 or o2[0] != "ok":
+                viol(l, o, "the library rejects its own output %r" % txt[:120], "chan-self", txt, extra)
+            elif not same_masked(o2[1:], t):
+                viol(l, o, "library re-parse of %r differs from the printed tree" % txt[:120], "chan-self", txt, extra)
+
+    WHAT = {"chan": ("jbn_as_json / jbn_as_json_alloc", NODE_CHANNELS), "jchan": ("jbl_from_node + jbl_as_json / jbl_as_json_alloc", JBL_CHANNELS)}
+    for i, m in enumerate(meta):
+        if m[0] in WHAT and i < len(out_i):
+            txt = judge_channels(lines[i], out_i[i], m, WHAT[m[0]][1], WHAT[m[0]][0])
+            if txt is not None:
+                judge_chan_text(lines[i], out_i[i], m, txt, out_i2[back[i]] if i in back and back[i] < len(out_i2) else None)
+    for j, m in enumerate(mchan2):
+        k = nparse2 + j
+        if k < len(out_i2):
+            txt = judge_channels(q2[k], out_i2[k], m, WHAT[m[0]][1], WHAT[m[0]][0])
+            if txt is not None:
+                judge_chan_text(q2[k], out_i2[k], m, txt, None)
+
+    # the sinks under jbn_as_xml (no model: agreement only; keys without NUL, attribute names are written with an explicit size) and the
+    # registry file written by iwjsreg_sync (objects with unique non-empty member names and no null members: what a merge keeps as it is)
+    xl, xm = [], []
+    for j, (pf, t, u8ok) in enumerate(trees):
+        if j % (10 if tier == "quick" else 3) == 0 and not any(x[0] == "k" and "00" in re.findall("..", x[1:]) for x in t):
+            toks = [(x + ":" + ftxt.get(x[1:17], "")) if x[0] == "d" else x for x in t]
+            for p2 in (pf, rng.choice(ALLPFS)):
+                xl.append("xml %d %s" % (p2, " ".join(toks))); xm.append(("xml", p2, t, u8ok, "tree"))
+    for name, b in BYTE_CLASSES:
+        if 0 not in b:
+            for pf in (0, 1, 5, 9):
+                t = ["{", "k" + b.hex(), "s" + b.hex(), "k3e" + b.hex(), "s" + b.hex(), "}"]
+                xl.append("xml %d %s" % (pf, " ".join(t))); xm.append(("xml", pf, t, is_utf8(b), "class/" + name))
+    regs = [["{", "k" + b.hex(), "s" + b.hex(), "k78", "[", "s" + b.hex(), "n", "]", "}"] for name, b in BYTE_CLASSES if 0 not in b]
+    regs += [t for j, (pf, t, u8ok) in enumerate(trees) if t[0] == "{" and len(t) > 2 and jbl_eligible(t) and "k" not in t
+             and not any(x[0] == "d" for x in t) and not reg_changes(t)][:150 if tier == "quick" else 5000]
+    for t in regs:
+        xl.append("reg %s" % " ".join(t)); xm.append(("reg", 5, t, all(is_utf8(b) for b in tree_strings(t)), "reg"))
+        xl.append("chan 5 %s" % " ".join(t)); xm.append(("regref", 5, t, True, "reg"))
+    rc, xo, xerr = vlib.run_lines(impl, "\n".join(xl) + "\n")
+    if rc != 0:
+        run.broken.append("harness failed on xml/registry channels: rc=%d %s" % (rc, xerr[-300:]))
+    for j, (l, m, o) in enumerate(zip(xl, xm, xo)):
+        if m[0] == "regref":
+            continue
+        run.case(l, nontrivial=True)
+        run.dist(m[0] + "/" + m[4].split("/")[0])
+        if m[0] == "xml":
+            res, _ = parse_groups(o)
+            if res is not None and all(res.get(n, ("", ""))[0] == "err" for n in XML_CHANNELS) and len({res[n][1] for n in XML_CHANNELS}) == 1:
+                continue                           # refused alike by every sink (not a JSON text question)
+            judge_channels(l, o, m, XML_CHANNELS, "jbn_as_xml")
+        else:
+            txt = judge_channels(l, o, m, REG_CHANNELS, "iwjsreg_replace + iwjsreg_sync (registry file)")
+            refres, _ = parse_groups(xo[j + 1]) if j + 1 < len(xo) else (None, "")
+            if txt is not None and refres and refres.get("n.xstr", ("", ""))[0] == "ok" and refres["n.xstr"][1] != txt:
+                viol(l, o, "the registry file %r is not the text jbn_as_json writes for the same tree with JBL_PRINT_PRETTY_INDENT2: %r" % (
+                    txt[:100], refres["n.xstr"][1][:100]), "chan-differ", txt, {"flags": 5, "channel": ["r.sync"], "tree": " ".join(m[2])[:2000]})
 
     # ---------------- ORACLE 5: printed doubles denote the printed value (independent of the model: doubles are oracle inputs there)
     dl, dm = [], []
@@ -1006,7 +1331,14 @@ def check(run):
                            "either sign and up to 100 leading zeros; each at top level, in arrays followed by more elements, as member values; "
                            "structural oracle = same token sequence as the reference parser, value oracle = 1e-9 relative), the scanner alone on "
                            "every such text with followers and on a complete sweep of its branch combinations (strtod queries, T2), "
-                           "mutated documents (T2 only), arbitrary trees with arbitrary byte strings x print flags, string bodies x buffer sizes, "
+                           "mutated documents (T2 only), arbitrary trees with arbitrary byte strings x print flags, "
+                           "print channels: every tree also through EVERY exported way of printing it (jbn_as_json / jbl_as_json x "
+                           "jbl_xstr_json_printer, jbl_fstream_json_printer on a memory stream and on a file, jbl_count_json_printer, a callback of "
+                           "the caller; jbn_as_json_alloc, jbl_as_json_alloc; iwjsreg_sync; jbn_as_xml for the agreement of the sinks) x all 16 flag "
+                           "sets: byte classes (each control, DEL, quote/backslash, UTF-8 of 2/3/4 bytes, continuation/overlong/truncated/"
+                           "surrogate/beyond-range/F5..FF bytes) as values and member names, every byte 0..255 alone, code-point edges, "
+                           "nesting 60 and 200 (indentation counts to 800), parsed documents (escapes, surrogate pairs), and the calls the "
+                           "printer makes (chunks queries, T2); string bodies x buffer sizes, "
                            "code points, byte sequences, strtoll texts; a case is one query line; distinct = distinct query text",
                       assumptions=["doubles are outside the model: number->double (iwstrtod) and double->text (iwjson_ftoa) are oracle inputs taken "
                                    "from the implementation; the reference comparison of doubles is approximate (1e-9 relative on parse, 8 fraction "
@@ -1017,6 +1349,10 @@ def check(run):
                                    "value may be representable) and 2.2250738585072011e-308 (refused on purpose) are judged by T2 and the "
                                    "structural oracle only; VERIF_JTEXT_OPEN=range-exp,range-mant,refused|all makes them full oracle cases",
                                    "documents are shorter than 2^31 bytes (C int lengths)",
+                                   "print channels: no I/O or allocation failure is injected into a sink; the binary-form channels (jbl_*) get "
+                                   "container roots with unique member names and no NUL bytes; jbn_as_xml only with member names free of NUL "
+                                   "(an attribute name holding a NUL is written differently by the FILE* and the xstr callback - XML, not C13); "
+                                   "the registry channel gets objects a JSON merge leaves as they are",
                                    "errno is 0 when jbn_from_json is entered (stale ERANGE is finding C17)"])
 
 
